@@ -259,10 +259,17 @@ class Gen:
             return {"op": name, "form": self.form(), **f, "md": self.md(True) if r.random() < 0.8 else {}}
         if name == "set_hg_md":
             md = self.md(True)
-            if r.random() < 0.5:
+            x = r.random()
+            if x < 0.35:
                 md["weighted"] = model.weighted
+            elif x < 0.6:
+                md["weighted"] = not model.weighted  # user metadata may say anything; it is not the object's flag
+            elif x < 0.7:
+                md["type"] = r.choice(["Hypergraph", "other"])
             return {"op": name, "md": md}
         if name == "set_attr_hg":
+            if r.random() < 0.2:
+                return {"op": name, "f": "weighted", "v": r.choice([True, False])}
             return {"op": name, "f": r.choice(MD_KEYS + ["name"]), "v": r.choice(MD_VALUES)}
         if name == "set_attr_node":
             if not nodes:
